@@ -356,8 +356,9 @@ def c09_plans(tier):
 CHECKS["C09"] = make_check("C09", c09_plans,
     "every transition of the one-step model MC_Decision (every stored value x every request of the menu: (stored, submitted, old) cubed x same/forked/junk root x "
     "empty/genuine/replayed/mutated proofs) executed on a real witness from its pre-state; verdict and returned bytes judged by FirstMatch = SpecVerdict; "
-    "the reference RFC 6962 verifier is run on the concrete proof bytes (three-way agreement); distinct = distinct (pre-state, well-signed request, verdict)", good_known,
-    pre=merkle_link)
+    "the reference RFC 6962 verifier is run on the concrete proof bytes (three-way agreement); the same rules through the add-checkpoint endpoint (status per rule, also for proofs of "
+    "62 and 63 hashes); distinct = distinct (pre-state, well-signed request, verdict)", good_known,
+    pre=merkle_link, post_all=lambda work, rep, tier, seed: __import__("checks_bastion").bastion_part(work, rep, tier, seed, "C09"))
 
 # ----------------------------------------------------------------------------- C03
 
@@ -379,7 +380,8 @@ CHECKS["C03"] = make_check("C03", c03_plans,
 
 
 def c03_faults(work, rep, tier, seed):
-    import checks_ops
+    import checks_ops, checks_bastion
+    checks_bastion.bastion_part(work, rep, tier, seed, "C03")
     evs, _ = checks_ops.fault_pipeline(work, rep, "quick", seed, "C03")
     ups = [e for e in evs if e.get("e") == "update"]
     rep.cov["evaluations"] += len(ups)
@@ -491,7 +493,8 @@ def c08_plans(tier):
 def c08_after_failures(work, rep, tier, seed):
     """"Whatever has been submitted before, accepted or refused": also requests that were refused because the STORAGE failed (every TLC-listed
     placement of a failure over the update histories, at interface and driver level) or whose caller went away; honest probes follow each."""
-    import checks_ops
+    import checks_ops, checks_bastion
+    checks_bastion.bastion_part(work, rep, tier, seed, "C08")
     evs, _ = checks_ops.fault_pipeline(work, rep, "quick", seed, "C08")
     probes = [e for e in evs if e.get("e") == "update" and not e.get("fired")]
     rep.cov["evaluations"] += len(probes)
